@@ -167,6 +167,11 @@ def judge_file(r, path, rows, props, res, maxviol=8):
         core.write_ndjson(path, rows)
 
 
+def enough(r):
+    """as many violations as a run records: further exploration cannot change the verdict"""
+    return len(r.violations) >= 25
+
+
 def validate_traces(r, files, props, maxfix=2):
     """Validate recorded traces of the real code.
     Full run (machine stepped + the predicates of `props`): accepted -> conformance and property hold on every event.
@@ -187,6 +192,8 @@ def validate_traces(r, files, props, maxfix=2):
         # 1. the property predicates on everything that was recorded
         nv = res["violations"]
         judge_file(r, fpath, rows, props, res)
+        if enough(r):
+            continue          # the verdict is in; drift bookkeeping would only burn time
         # 2. how far does the machine follow? (drift bookkeeping; bounded number of re-runs)
         cur_rows, cur_o, fixes = rows, o, 0
         while True:
@@ -395,6 +402,9 @@ def run_plan(r, plan):
     fam_stats = []
     for (fam, maxlen, alphabet, nslices, slices, kw) in plan["families"]:
         for sl in slices:
+            if enough(r):
+                fam_stats.append({"family": fam, "slice": "%d/%d" % (sl, nslices), "skipped": "25 violations already recorded", "runs_cut_by_budget": 0})
+                continue
             o, cases, cut = explore(r, fam, maxlen, alphabet, nslices=nslices, slice_=sl, **kw)
             st = {"family": fam, "maxlen": maxlen, "alphabet": alphabet, "slice": "%d/%d" % (sl, nslices), "runs_exported": len(cases),
                   "runs_cut_by_budget": cut, "states": o.distinct, "wall_s": round(o.wall, 1)}
@@ -412,6 +422,8 @@ def run_plan(r, plan):
             fam_stats.append(st)
     rnd_stats = []
     for (n, opts) in plan.get("random", []):
+        if enough(r):
+            break
         rnd_stats.append({"opts": opts, "result": random_traces(r, n, props, **opts)})
     r.extra["families"] = fam_stats
     r.extra["random"] = rnd_stats
